@@ -2113,7 +2113,8 @@ class Node(SimComponent, ABC):
 
         to the red agent.
         """
-        self.node_scan_countdown = self.config.node_scan_duration
+        # a duration of 0 completes at the next timestep, like a duration of 1
+        self.node_scan_countdown = max(1, self.config.node_scan_duration)
         return True
 
     def reveal_to_red(self) -> bool:
